@@ -42,6 +42,10 @@ pub trait Matcher {
     /// Scan from position `p` of `chars` in rule set `set`.
     fn scan(&mut self, set: usize, chars: &[char], p: usize) -> Scan;
     fn named(&self) -> bool;
+    /// The matcher gave up (step cap reached): the run is abandoned.
+    fn gave_up(&self) -> bool {
+        false
+    }
 }
 
 pub struct Compiled {
@@ -53,6 +57,10 @@ pub struct Compiled {
     /// Symbols read so far by `scan` and by right-context evaluation (a deterministic cost
     /// measure used to keep long generated inputs away from quadratic / cubic worst cases).
     pub steps: u64,
+    /// `scan` gives up (and sets `capped`) once `steps` reaches this value; used by the shrinker to
+    /// reject candidate inputs that are quadratic for maximal munch. `u64::MAX` = no cap.
+    pub step_cap: u64,
+    pub capped: bool,
 }
 
 fn collect_classes(re: &Re, out: &mut Vec<Cls>) {
@@ -76,6 +84,21 @@ fn collect_classes(re: &Re, out: &mut Vec<Cls>) {
 }
 
 impl Compiled {
+    /// True if the reference can lex `case` within `40 * len + 100 000` symbol reads (long inputs
+    /// only; short ones are always affordable).
+    pub fn affordable(&mut self, case: &proto::Case) -> bool {
+        if case.input.len() < 4000 {
+            return true;
+        }
+        self.step_cap = self.steps + 40 * case.input.len() as u64 + 100_000;
+        self.capped = false;
+        let _ = run_model(self, case);
+        let ok = !self.capped;
+        self.step_cap = u64::MAX;
+        self.capped = false;
+        ok
+    }
+
     pub fn new(flat: &Flat) -> Compiled {
         let mut classes = vec![];
         for s in &flat.sets {
@@ -112,6 +135,8 @@ impl Compiled {
             named: flat.named,
             classes,
             steps: 0,
+            step_cap: u64::MAX,
+            capped: false,
         }
     }
 
@@ -135,6 +160,10 @@ impl Compiled {
             node = self.arena.deriv(node, sym);
             pos += 1;
             self.steps += 1;
+            if self.steps >= self.step_cap {
+                self.capped = true;
+                return false;
+            }
         }
     }
 }
@@ -146,6 +175,9 @@ impl Matcher for Compiled {
 
     fn named(&self) -> bool {
         self.named
+    }
+    fn gave_up(&self) -> bool {
+        self.capped
     }
 
     fn rule(&self, set: usize, idx: usize) -> (u32, Kind) {
@@ -179,6 +211,10 @@ impl Matcher for Compiled {
                 sets[set].dfa.step(arena, cur, sym)
             };
             self.steps += 1;
+            if self.steps >= self.step_cap {
+                self.capped = true;
+                break;
+            }
             i += 1;
             if self.sets[set].dfa.state(nxt).dead {
                 break;
@@ -318,6 +354,9 @@ pub fn run_model<M: Matcher>(m: &mut M, case: &Case) -> ModelOut {
 
     loop {
         let sc = m.scan(set, &chars, p);
+        if m.gave_up() {
+            break;
+        }
         match sc.best {
             Some((e, k)) => {
                 let end = e.min(n);
